@@ -137,7 +137,7 @@ def run(chk, tier):
                        found=im['def'])
         chk.ob('R10.3', 'unsafe_code is forbidden crate-wide', F.unsafe_code_lint == 'Forbid', config=cfg, site='lint', what='unsafe_code lint level',
                found=F.unsafe_code_lint, expected='Forbid')
-        chk.ob('R10.3', 'no statics', all(not s.get('imut') and not s.get('mut') for s in F.statics), config=cfg, site='statics', what='mutable static',
+        chk.ob('R10.3', 'no mutable statics', all(not s.get('mut') and s.get('freeze', True) for s in F.statics), config=cfg, site='statics', what='mutable static',
                found=[s['def'] for s in F.statics])
 
         # ---- R10.4 configuration immutable after construction: nobody obtains &mut to the shared state
